@@ -194,9 +194,64 @@ def expected (cfg : Cfg) (probes ckeys : List Str) (h : List (Nat × Op)) : Obs 
   let g := ghost cfg (h.map (·.2))
   { pending := probes.map (expPending g), confirmed := ckeys.map (expConfirmed g) }
 
+/-! ### a second window: the lockout of everything before a long pause has run out
+
+"… until a log arrives OR the lockout expires": the two events in the other order.  If every operation before a pause
+is more than one lockout window older than the first operation after it, the id blocks start afresh after the pause
+(while the keys stay active for their hour): a log that arrives only now is applied to the expired id. -/
+
+def opFreeB (pa pl : List Str) : Op → Bool
+  | .accept k => !decide (k ∈ pa)
+  | .perform l => !decide (l.key ∈ pl)
+  | .stale l => !decide (l.key ∈ pl)
+
+def pauseBefore (w : Nat) (pre recent : List (Nat × Op)) : Bool :=
+  match recent with
+  | [] => false
+  | r :: _ => pre.all fun p => decide (p.1 + w < r.1)
+
+/-- the latest pause longer than the window: `(before, after)` -/
+def lateSplitFrom (w : Nat) (h : List (Nat × Op)) : Nat → Option (List (Nat × Op) × List (Nat × Op))
+  | 0 => none
+  | i + 1 => if pauseBefore w (h.take (i + 1)) (h.drop (i + 1)) then some (h.take (i + 1), h.drop (i + 1))
+             else lateSplitFrom w h i
+
+def lateSplit (w : Nat) (h : List (Nat × Op)) : Option (List (Nat × Op) × List (Nat × Op)) :=
+  lateSplitFrom w h (h.length - 1)
+
+/-- what the history shows for the window after the pause: accepted / logged keys of the whole history, contributions
+    of the operations after the pause only -/
+def ghostLate (cfg : Cfg) (pre recent : List (Nat × Op)) : Ghost :=
+  ghostFrom cfg { ghost cfg (pre.map (·.2)) with contribs := [] } (recent.map (·.2))
+
+/-- canonical keys; `pre` inside one window; `recent` and the probe inside the next one; all within the hour an
+    accepted key stays active; after the pause no key accepted before it is accepted again and no key that already had
+    a log gets another one -/
+def lateRegime (cfg : Cfg) (pre recent : List (Nat × Op)) (now : Nat) (probes : List Str) : Bool :=
+  match recent with
+  | [] => false
+  | r :: _ =>
+    let t0 := minTime pre now
+    let tr0 := r.1
+    let g := ghost cfg (pre.map (·.2))
+    pre.all (fun p => opCanon p.2) && recent.all (fun p => opCanon p.2) && probes.all probeCanon &&
+    pre.all (fun p => decide (t0 ≤ p.1) && decide (p.1 ≤ t0 + cfg.window) && decide (p.1 + cfg.window < tr0)) &&
+    recent.all (fun p => decide (tr0 ≤ p.1) && decide (p.1 ≤ tr0 + cfg.window) && decide (p.1 ≤ t0 + activeTtlNs) &&
+      opFreeB g.accepted g.logged p.2) &&
+    decide (t0 ≤ tr0) && decide (tr0 ≤ now) && decide (now ≤ tr0 + cfg.window) && decide (now ≤ t0 + activeTtlNs)
+
+def expectedLate (cfg : Cfg) (probes ckeys : List Str) (pre recent : List (Nat × Op)) : Obs :=
+  let g := ghostLate cfg pre recent
+  { pending := probes.map (expPending g), confirmed := ckeys.map (expConfirmed g) }
+
+def lateOk (cfg : Cfg) (probes ckeys : List Str) (h : List (Nat × Op)) (now : Nat) (o : Obs) : Bool :=
+  match lateSplit cfg.window h with
+  | none => true
+  | some (pre, recent) => !lateRegime cfg pre recent now probes || decide (o = expectedLate cfg probes ckeys pre recent)
+
 def pointOk (cfg : Cfg) (probes ckeys : List Str) (r : Run) (p : Nat × Nat) (o : Obs) : Bool :=
   let h := r.ops.take p.1
-  !regime cfg h p.2 probes || decide (o = expected cfg probes ckeys h)
+  (!regime cfg h p.2 probes || decide (o = expected cfg probes ckeys h)) && lateOk cfg probes ckeys h p.2 o
 
 def zipAll {α β} (f : α → β → Bool) : List α → List β → Bool
   | [], [] => true
@@ -260,7 +315,10 @@ def explainObs (cfg : Cfg) (probes ckeys : List Str) (h : List (Nat × Op)) (o :
 
 def explainRun (cfg : Cfg) (probes ckeys : List Str) (r : Run) (out : List Obs) : Option String :=
   match (r.points.zip out).find? (fun po => !pointOk cfg probes ckeys r po.1 po.2) with
-  | some (p, o) => some (explainObs cfg probes ckeys (r.ops.take p.1) o)
+  | some (p, o) =>
+    if !lateOk cfg probes ckeys (r.ops.take p.1) p.2 o then
+      some "late log: after the lockout ran out, the answers differ from (logs since the pause applied to the expired ids; keys still active)"
+    else some (explainObs cfg probes ckeys (r.ops.take p.1) o)
   | none => if r.points.length ≠ out.length then some "wrong number of observations" else none
 
 def explain (cfg : Cfg) (probes ckeys : List Str) (runs : List Run) (outs : List (List Obs)) : String :=
